@@ -168,9 +168,31 @@ func (st *pkgState) inlineOnce(fi *funcInfo, s, next ast.Stmt) (repl []ast.Stmt,
 		}
 	case *ast.ReturnStmt:
 		if len(x.Results) == 1 {
-			if call, ok := x.Results[0].(*ast.CallExpr); ok && st.inlinable(call) && st.sameResults(fi, call) {
+			if call, ok := x.Results[0].(*ast.CallExpr); ok && st.inlinable(call) && st.sameResults(fi, call) && !st.hasDefers(call) {
 				if body, ok := st.expand(fi, call, sink{keepReturns: true}); ok {
 					return append(body, &ast.EmptyStmt{Semicolon: pos, Implicit: true}), false, true
+				}
+				return nil, false, false
+			}
+			if call, ok := x.Results[0].(*ast.CallExpr); ok && st.inlinable(call) && st.numResults(call) > 1 {
+				// results through fresh variables
+				st.n++
+				var pre []ast.Stmt
+				var lhs, rets []ast.Expr
+				for i := 0; i < st.numResults(call); i++ {
+					nm := fmt.Sprintf("_inl%d_r%d", st.n, i)
+					d, ok := st.resultVarDecl(call, i, nm, pos)
+					if !ok {
+						return nil, false, false
+					}
+					pre = append(pre, d)
+					lhs = append(lhs, &ast.Ident{NamePos: pos, Name: nm})
+					rets = append(rets, &ast.Ident{NamePos: pos, Name: nm})
+				}
+				if body, ok := st.expand(fi, call, sink{lhs: lhs}); ok {
+					x.Results = rets
+					out := append(pre, body...)
+					return append(out, x, &ast.EmptyStmt{Semicolon: pos, Implicit: true}), false, true
 				}
 				return nil, false, false
 			}
@@ -678,15 +700,16 @@ func (st *pkgState) expand(fi *funcInfo, call *ast.CallExpr, sk sink) ([]ast.Stm
 	type result struct {
 		name string
 		typ  ast.Expr
+		id   *ast.Ident
 	}
 	var results []result
 	if cp.Type.Results != nil {
 		for _, f := range cp.Type.Results.List {
 			if len(f.Names) == 0 {
-				results = append(results, result{"", f.Type})
+				results = append(results, result{"", f.Type, nil})
 			}
 			for _, nm := range f.Names {
-				results = append(results, result{nm.Name, f.Type})
+				results = append(results, result{nm.Name, f.Type, nm})
 			}
 		}
 	}
@@ -700,10 +723,21 @@ func (st *pkgState) expand(fi *funcInfo, call *ast.CallExpr, sk sink) ([]ast.Stm
 		}
 		return &ast.DeclStmt{Decl: &ast.GenDecl{TokPos: pos, Tok: token.VAR, Specs: []ast.Spec{vs}}}
 	}
-	use := func(name string) ast.Stmt {
-		return &ast.AssignStmt{Lhs: []ast.Expr{ident("_")}, TokPos: pos, Tok: token.ASSIGN, Rhs: []ast.Expr{ident(name)}}
-	}
 	var inner []ast.Stmt
+	// declarations reuse the (renamed) identifier nodes of the copied signature,
+	// so that they are renamed together with their uses if this body is inlined again
+	bind := func(id *ast.Ident, typ ast.Expr, val ast.Expr) {
+		if id == nil || id.Name == "_" {
+			inner = append(inner, varDecl("_", typ, val))
+			return
+		}
+		vs := &ast.ValueSpec{Names: []*ast.Ident{id}, Type: typ}
+		if val != nil {
+			vs.Values = []ast.Expr{val}
+		}
+		inner = append(inner, &ast.DeclStmt{Decl: &ast.GenDecl{TokPos: pos, Tok: token.VAR, Specs: []ast.Spec{vs}}})
+		inner = append(inner, &ast.AssignStmt{Lhs: []ast.Expr{ident("_")}, TokPos: pos, Tok: token.ASSIGN, Rhs: []ast.Expr{st.alias(id)}})
+	}
 	// ---- receiver and arguments, evaluated in order
 	if cp.Recv != nil && len(cp.Recv.List) == 1 {
 		sel, ok := call.Fun.(*ast.SelectorExpr)
@@ -724,31 +758,41 @@ func (st *pkgState) expand(fi *funcInfo, call *ast.CallExpr, sk sink) ([]ast.Stm
 		case !recvIsPtr && xIsPtr:
 			rv = &ast.StarExpr{Star: pos, X: sel.X}
 		}
-		name := "_"
+		var rid *ast.Ident
 		if len(cp.Recv.List[0].Names) == 1 {
-			name = cp.Recv.List[0].Names[0].Name
+			rid = cp.Recv.List[0].Names[0]
 		}
-		inner = append(inner, varDecl(name, recvType, rv))
-		if name != "_" {
-			inner = append(inner, use(name))
-		}
+		bind(rid, recvType, rv)
 	}
 	for i, p := range rparams {
-		name := "_"
-		if p.id != nil {
-			name = p.id.Name
-		}
-		inner = append(inner, varDecl(name, st.clone(p.typ).(ast.Expr), call.Args[i]))
-		if name != "_" {
-			inner = append(inner, use(name))
-		}
+		bind(p.id, st.clone(p.typ).(ast.Expr), call.Args[i])
 	}
 	named := false
-	for _, r := range results {
-		if r.name != "" && r.name != "_" {
-			named = true
-			inner = append(inner, varDecl(r.name, st.clone(r.typ).(ast.Expr), nil), use(r.name))
+	if cp.Type.Results != nil {
+		for _, f := range cp.Type.Results.List {
+			for _, nm := range f.Names {
+				if nm.Name != "_" {
+					named = true
+					bind(nm, st.clone(f.Type).(ast.Expr), nil)
+				}
+			}
 		}
+	}
+	// deferred calls of the callee (only the modelled kind reaches this point): run at every return site
+	var deferred []*ast.CallExpr
+	{
+		var keep []ast.Stmt
+		for _, s := range cp.Body.List {
+			if d, ok := s.(*ast.DeferStmt); ok {
+				deferred = append(deferred, d.Call)
+				continue
+			}
+			keep = append(keep, s)
+		}
+		cp.Body.List = keep
+	}
+	if sk.keepReturns && len(deferred) > 0 {
+		return decline("deferred calls in tail position")
 	}
 	if sk.keepReturns {
 		if named {
@@ -787,6 +831,14 @@ func (st *pkgState) expand(fi *funcInfo, call *ast.CallExpr, sk sink) ([]ast.Stm
 				ss = append(ss, assignTo(at, rhs))
 			}
 		}
+		for i := len(deferred) - 1; i >= 0; i-- {
+			dc := st.clone(deferred[i]).(*ast.CallExpr)
+			if st.res.DeferSites == nil {
+				st.res.DeferSites = map[token.Pos]bool{}
+			}
+			st.res.DeferSites[dc.Lparen] = true
+			ss = append(ss, &ast.ExprStmt{X: dc})
+		}
 		if sk.tail != nil {
 			ss = append(ss, st.clone(sk.tail).(*ast.IfStmt))
 		}
@@ -807,7 +859,7 @@ func (st *pkgState) expand(fi *funcInfo, call *ast.CallExpr, sk sink) ([]ast.Stm
 						rhs = nil
 						break
 					}
-					rhs = append(rhs, ident(r.name))
+					rhs = append(rhs, st.alias(r.id))
 				}
 			default:
 				rhs = x.Results
@@ -817,7 +869,11 @@ func (st *pkgState) expand(fi *funcInfo, call *ast.CallExpr, sk sink) ([]ast.Stm
 		}
 		return true
 	}, nil)
-	body.List = append(body.List, &ast.BranchStmt{TokPos: pos, Tok: token.BREAK, Label: ident(label)})
+	if len(results) == 0 {
+		body.List = append(body.List, leave(pos, nil).List...)
+	} else {
+		body.List = append(body.List, &ast.BranchStmt{TokPos: pos, Tok: token.BREAK, Label: ident(label)})
+	}
 	loop := &ast.LabeledStmt{Label: ident(label), Colon: pos, Stmt: &ast.ForStmt{For: pos, Body: body}}
 	inner = append(inner, loop)
 	if len(needImport) > 0 {
@@ -852,4 +908,17 @@ func (st *pkgState) alias(id *ast.Ident) *ast.Ident {
 	n := &ast.Ident{NamePos: id.Pos(), Name: id.Name}
 	st.orig[n] = st.o(id)
 	return n
+}
+
+func (st *pkgState) hasDefers(call *ast.CallExpr) bool {
+	ci := st.cand[st.staticCallee(call)]
+	if ci == nil {
+		return false
+	}
+	for _, s := range ci.decl.Body.List {
+		if _, ok := s.(*ast.DeferStmt); ok {
+			return true
+		}
+	}
+	return false
 }
